@@ -63,6 +63,23 @@ def exhaustive(tier):
 
 @st.composite
 def _cases(draw):
+    k0 = pct(draw)
+    if k0 >= 97:
+        # first-side numbers above 1000 in short, tied second-side lists (keys built from two
+        # numbers must not collide), and one list with about n1 entries
+        n1 = draw(st.sampled_from([1001, 1203, 2050]))
+        m = draw(st.sampled_from([2, 3, 4]))
+        base = draw(st.sampled_from([1, 2, 3, 5, 7]))
+        offs = [o for o in (0, 1, 256, 1000, 1001, 1024, 2000) if base + o <= n1]
+        chosen = {}
+        for o in offs:
+            hs = list(draw(st.permutations(list(range(1, m + 1)))))
+            chosen[str(base + o)] = hs[:draw(st.sampled_from([1, 2, m]))]
+        orders = [list(draw(st.permutations(list(range(len(offs)))))) for _ in range(m)]
+        bits1 = [1 if pct(draw) < 50 else 0 for _ in range(7)]
+        bits2 = [1 if pct(draw) < draw(st.sampled_from([20, 50, 80])) else 0 for _ in range(11)]
+        return {'kind': 'sparse', 'gen': draw(st.sampled_from(['hr', 'spa'])), 'n1': n1, 'm': m,
+                'chosen': chosen, 'orders': orders, 'bits1': bits1, 'bits2': bits2}
     if pct(draw) < 30:
         n = draw(st.sampled_from([2, 3, 4, 5, 6, 8]))
         tp = draw(st.sampled_from([30, 50, 70, 100]))
@@ -72,8 +89,8 @@ def _cases(draw):
                 'rows1': rows1, 'rows2': rows2}
     pl = draw(st.sampled_from(PLACEMENTS))
     as_numpy = draw(st.booleans())
-    n = draw(st.sampled_from([2, 3, 5, 8, 14, 20, 33, 60]))
-    tp = draw(st.sampled_from([10, 30, 50, 70, 90]))
+    n = draw(st.sampled_from([2, 3, 5, 8, 14, 20, 33, 60, 60, 130, 257, 300, 520, 700]))
+    tp = draw(st.sampled_from([10, 30, 50, 70, 90] if n <= 60 else [0, 3, 10, 30]))
     perm = list(draw(st.permutations(list(range(1, n + 1)))))
     vec = [1 if pct(draw) < tp else 0 for _ in range(n)]
     return {'n': n, 'vec': vec, 'placement': pl, 'as_numpy': as_numpy, 'perm': perm}
@@ -152,70 +169,103 @@ def build_file(placement, n, liststr):
     return '\n'.join(lines) + '\n', 3, True
 
 
+def sparse_layout(case):
+    """More than a thousand first-side agents, of which a few (numbers far apart: s, 256+s,
+    1000+s, 2000+s, ...) rank the small second-side agents 1..m with ties; everybody else ranks
+    only the last second-side agent, whose list therefore has about n1 entries."""
+    n1, m = case['n1'], case['m']
+    n2 = m + 1
+    chosen = case['chosen']                     # {student: list of small hospitals in order}
+    perms1, perms2 = [], [[] for _ in range(n2)]
+    for i in range(1, n1 + 1):
+        lst = list(chosen.get(str(i), chosen.get(i, []))) or [n2]
+        perms1.append(lst)
+    for j in range(1, n2 + 1):
+        rankers = [i for i in range(1, n1 + 1) if j in perms1[i - 1]]
+        if j <= m:
+            # drawn order of the few rankers
+            order = case['orders'][j - 1]
+            rankers = sorted(rankers, key=lambda x: order[rankers.index(x) % len(order)]
+                             if order else x)
+        perms2[j - 1] = rankers
+    rows1 = [[(case['bits1'][(i + k) % len(case['bits1'])]) for k in range(len(perms1[i]))]
+             for i in range(n1)]
+    rows2 = [[(case['bits2'][(3 * j + k) % len(case['bits2'])]) for k in range(len(perms2[j]))]
+             for j in range(n2)]
+    return n1, n2, perms1, rows1, perms2, rows2
+
+
 def run_instance(case):
     """Rows with given tie vectors assembled by the generators' own create_instance."""
     import numpy as np
     from matchingproblems.generator.generator_ha_sm_hr import Generator_ha_sm_hr
     from matchingproblems.generator.generator_spa import Generator_spa
-    n = case['n']
-    # agent i ranks all n agents of the other side, in an order rotated by i
-    perms1 = [[(i + j) % n + 1 for j in range(n)] for i in range(n)]
-    perms2 = [[(2 * i + j) % n + 1 for j in range(n)] for i in range(n)]
-    ties1 = [np.array(v) for v in case['rows1']]
-    ties2 = [np.array(v) for v in case['rows2']]
+    if case.get('kind') == 'sparse':
+        n1, n2, perms1, rows1, perms2, rows2 = sparse_layout(case)
+    else:
+        n = n1 = n2 = case['n']
+        # agent i ranks all n agents of the other side, in an order rotated by i
+        perms1 = [[(i + j) % n + 1 for j in range(n)] for i in range(n)]
+        perms2 = [[(2 * i + j) % n + 1 for j in range(n)] for i in range(n)]
+        rows1, rows2 = case['rows1'], case['rows2']
+    ties1 = [np.array(v) for v in rows1]
+    ties2 = [np.array(v) for v in rows2]
     p1 = [np.array(p) for p in perms1]
     p2 = [list(p) for p in perms2]
     if case['gen'] == 'hr':
-        text = call_repo('create_instance', Generator_ha_sm_hr().create_instance, n, n, p1,
-                         ties1, p2, ties2, [0] * n, [1] * n, 'info\n')
+        text = call_repo('create_instance', Generator_ha_sm_hr().create_instance, n1, n2, p1,
+                         ties1, p2, ties2, [0] * n2, [n1] * n2, 'info\n')
         na = 2
     else:
-        text = call_repo('create_instance', Generator_spa().create_instance, n, n, n, p1, ties1,
-                         list(range(1, n + 1)), [0] * n, [1] * n, p2, ties2, [0] * n, [1] * n,
-                         [1] * n, 'info\n')
+        text = call_repo('create_instance', Generator_spa().create_instance, n1, n2, n2, p1, ties1,
+                         list(range(1, n2 + 1)), [0] * n2, [n1] * n2, p2, ties2, [0] * n2,
+                         [n1] * n2, [n1] * n2, 'info\n')
         na = 3
     lines = text.split('\n')
-    want1 = [expected_groups(perms1[i], case['rows1'][i]) for i in range(n)]
-    want2 = [expected_groups(perms2[k], case['rows2'][k]) for k in range(n)]
-    from .. import refmodel
-    for i in range(n):
+    want1 = [expected_groups(perms1[i], rows1[i]) for i in range(n1)]
+    want2 = [expected_groups(perms2[k], rows2[k]) if perms2[k] else [] for k in range(n2)]
+    for i in range(n1):
         got = lines[1 + i].split()[1:]
-        check_writer(got, perms1[i], case['rows1'][i])
-    off = 1 + n + (n if na == 3 else 0)
+        check_writer(got, perms1[i], rows1[i])
+    off = 1 + n1 + (n2 if na == 3 else 0)
     skip = 4 if na == 3 else 3
-    for k in range(n):
+    for k in range(n2):
         got = lines[off + k].split()[skip:]
-        check_writer(got, perms2[k], case['rows2'][k])
+        if perms2[k] or got:
+            check_writer(got, perms2[k], rows2[k])
     path = solverio.write_instance(text)
     try:
         model = solverio.make_solver(['-f', path, '-na', str(na), '-twopl']).model
     except Violation as v:
         raise Violation('reader_fails', 'instance assembled by create_instance (%s): %s'
                         % (case['gen'], v.detail), exc=v.exc)
-    for i in range(n):
+    w2s = [{x: r + 1 for r, g in enumerate(want2[k]) for x in g} for k in range(n2)]
+    for i in range(n1):
         rs = {p.projectID: p.rank_student for p in model.pairs[i]}
         w = {x: r + 1 for r, g in enumerate(want1[i]) for x in g}
         if rs != w:
             raise Violation('reader_ranks', 'row %d of side 1 (%r) read with ranks %r, expected %r'
-                            % (i + 1, lines[1 + i], rs, w))
+                            % (i + 1, lines[1 + i][:200], rs, w))
         for p in model.pairs[i]:
             k = p.lecturerID - 1
-            w2 = {x: r + 1 for r, g in enumerate(want2[k]) for x in g}
-            if p.rank_lecturer != w2[i + 1]:
+            if p.rank_lecturer != w2s[k][i + 1]:
                 raise Violation('reader_ranks', 'row %d of side 2 (%r): agent %d read with rank '
-                                '%r, expected %r' % (k + 1, lines[off + k], i + 1,
-                                                     p.rank_lecturer, w2[i + 1]))
-    inner = [x for v in case['rows1'] + case['rows2'] for x in v[:n - 1]]
-    ends_in_tie = any(len(v) >= 2 and v[-2] and v[-1] for v in case['rows1'][:-1] +
-                      case['rows2'][:-1])
-    labels = ['kind=instance', 'gen=' + case['gen']]
+                                '%r, expected %r' % (k + 1, lines[off + k][:200], i + 1,
+                                                     p.rank_lecturer, w2s[k][i + 1]))
+    inner = [x for v in list(rows1) + list(rows2) for x in v[:len(v) - 1]]
+    ends_in_tie = any(len(v) >= 2 and v[-2] and v[-1] for v in list(rows1[:-1]) + list(rows2[:-1]))
+    labels = ['kind=' + case.get('kind', 'instance'), 'gen=' + case['gen']]
+    if n1 > 1000:
+        labels.append('n1>1000')
+    if max(len(g) for g in want2) >= 256 or max(len(g) for g in want1) >= 256:
+        labels.append('list_with>=256_ranks')
     if ends_in_tie:
         labels.append('row_ends_in_tie_with_last_decision_set')
     return Result((1 in inner) and (0 in inner), labels)
 
 
 def run_case(case):
-    if case.get('kind') == 'instance':
+    if case.get('kind') in ('instance', 'sparse'):
         return run_instance(case)
     from matchingproblems.generator import generator_shared as gs
     import numpy as np
@@ -257,8 +307,11 @@ def run_case(case):
                         % (' '.join(tokens), pl, got, want))
     inner = vec[:n - 1]
     nt = (1 in inner) and (0 in inner)
-    labels = ['placement=' + pl, 'n<=%d' % (10 if n <= 10 else (13 if n <= 13 else 60)),
+    labels = ['placement=' + pl, 'n<=%d' % (10 if n <= 10 else (13 if n <= 13 else 60))
+              if n <= 60 else 'n>60',
               'numpy' if case['as_numpy'] else 'lists']
+    if len(groups) >= 256:
+        labels.append('list_with>=256_ranks')
     if vec and vec[-1]:
         labels.append('last_decision_set')
     if inner and all(inner):
